@@ -213,14 +213,22 @@ type x05RW struct {
 	ready chan struct{}
 	code  int
 	snap  http.Header
+	dead  atomic.Bool // ServeHTTP has returned
 }
 
+// net/http: "A ResponseWriter may not be used after Handler.ServeHTTP has returned" - the real server may crash; here it
+// is a panic in the SDK call that does it (sse.go: "it is invalid to write to a ResponseWriter after ServeHTTP has exited")
+func (w *x05RW) alive() {
+	if w.dead.Load() {
+		panic("x05: ResponseWriter used after ServeHTTP returned")
+	}
+}
 func (w *x05RW) Header() http.Header { return w.hdr }
 func (w *x05RW) WriteHeader(code int) {
 	w.once.Do(func() { w.code, w.snap = code, w.hdr.Clone(); close(w.ready) })
 }
-func (w *x05RW) Write(b []byte) (int, error) { w.WriteHeader(http.StatusOK); return w.p.Write(b) }
-func (w *x05RW) Flush()                      { w.WriteHeader(http.StatusOK) }
+func (w *x05RW) Write(b []byte) (int, error) { w.alive(); w.WriteHeader(http.StatusOK); return w.p.Write(b) }
+func (w *x05RW) Flush()                      { w.alive(); w.WriteHeader(http.StatusOK) }
 
 type x05Body struct {
 	p      *x05Pipe
@@ -247,6 +255,7 @@ func (rt *x05RT) RoundTrip(req *http.Request) (*http.Response, error) {
 		defer stop()
 		rt.h.ServeHTTP(w, sreq)
 		w.WriteHeader(http.StatusOK)
+		w.dead.Store(true)
 		p.closeWrite()
 	}()
 	select {
